@@ -1261,7 +1261,24 @@ def it_chain_from_iterable(I, a, k):
 
 import ast as _ast_mod
 
+def np_shape(I, a, k):
+    """numpy.shape of a number or a flat (1-d) sequence"""
+    from . import symseq as _ss
+
+    x = a[0]
+    if isinstance(x, (SNum, SBool)):
+        return STuple([])
+    if isinstance(x, _ss.SymSeq) and x.kind in ("numpy.ndarray", "list", "tuple"):
+        return STuple([SNum(x.n, "int")])
+    if isinstance(x, STuple) and all(isinstance(e, (SNum, SBool)) for e in x.items):
+        return STuple([SNum(len(x.items))])
+    if isinstance(x, SRef) and isinstance(x.o, HList) and all(isinstance(e, (SNum, SBool)) for e in x.o.items):
+        return STuple([SNum(len(x.o.items))])
+    raise OutOfSubset("numpy.shape of %r" % (x,))
+
+
 EXTERNALS = {
+    "numpy.shape": np_shape,
     "functools.reduce": f_reduce,
     "operator.iconcat": op_iconcat,
     "operator.concat": op_binop(_ast_mod.Add),
